@@ -1,7 +1,7 @@
 SPECIFICATION Spec
 CONSTANTS
-  NU = 1
-  NS = 2
+  NU = 2
+  NS = 1
   UCalls <- MC_UCalls
   Subs <- MC_Subs
   BatchOf <- MC_BatchOf
@@ -13,12 +13,12 @@ CONSTANTS
   SignedArm = TRUE
   AtomicWrites = TRUE
   WriteLock = FALSE
-  AtomicDown = TRUE
+  AtomicDown = FALSE
   CompleteOnDownError = TRUE
   MaxFaults = 0
   MaxCancels = 1
   AllowClose = FALSE
   AllowReorder = TRUE
 VIEW View
-INVARIANTS TypeOK AtMostOnce OkOnlyIfAnswered
+INVARIANTS TypeOK IdleNotArmed BusyArmed TimeoutOnlyWhenBusy AtMostOnce
 CHECK_DEADLOCK FALSE
